@@ -333,7 +333,7 @@ func genW1(prop string, seed uint64, p profile) *Scenario {
 	if p.hotGates {
 		opts := []string{"stage.prepare", "stage.receive.begin", "stage.receive.written", "stage.received", "stage.status", "stage.scan", "stage.pathlock"}
 		for _, o := range opts {
-			if g.pct(25) {
+			if g.pct(25) || (o == "stage.pathlock" && g.pct(40)) {
 				sc.Hot = append(sc.Hot, o)
 			}
 		}
